@@ -848,6 +848,22 @@ Definition run_dbg (ws : list bytes) : bytes :=
   | _ => bad_case
   end.
 
+(* ---------------------------------------------------------------- C17: several requests in flight *)
+
+(* ILV k schedule r1 r2 ... : each r = kind/status/ct/body ; every request gets the outcome it
+   would get alone *)
+Definition run_ilv (ws : list bytes) : bytes :=
+  match ws with
+  | _k :: _sched :: reqs =>
+      join (s2b " || ")
+        (map (fun r => match split_on "/"%char r with
+                       | [kind; st; ct; body] =>
+                           run_http [s2b "sync"; kind; s2b "E"; st; ct; body; tok_list [s2b "https://v/"]]
+                       | _ => bad_case
+                       end) reqs)
+  | _ => bad_case
+  end.
+
 Definition run_line (line : bytes) : bytes :=
   match words line with
   | p :: ws =>
@@ -874,6 +890,7 @@ Definition run_line (line : bytes) : bytes :=
       else if is_kw "URLT" p then run_urlt ws
       else if is_kw "HTTP" p then run_http ws
       else if is_kw "DBG" p then run_dbg ws
+      else if is_kw "ILV" p then run_ilv ws
       else if is_kw "DECODE" p then run_decode ws
       else if is_kw "BUILT" p then run_built ws
       else if is_kw "URLP" p then run_urlp ws
